@@ -409,13 +409,18 @@ func selectRemoteAddedModuleForOpaqueIDIgnoreTargeting(
 
 	// Now, we deduplicate by commit ID. If we end up with a single Module, we return that, otherwise we select exactly one Module
 	// based on the create time of the corresponding commit ID.
-	commitIDToAddedModules := slicesext.ToValuesMap(
-		addedModules,
-		func(addedModule *addedModule) uuid.UUID { return addedModule.remoteModuleKey.CommitID() },
-	)
-	uniqueAddedModules := make([]*addedModule, 0, len(commitIDToAddedModules))
-	for _, addedModules := range commitIDToAddedModules {
-		uniqueAddedModules = append(uniqueAddedModules, addedModules[0])
+	//
+	// We keep the first addedModule per commit ID in input order, so that the selection below
+	// (including ties on the create time) does not depend on map iteration order.
+	seenCommitIDs := make(map[uuid.UUID]struct{}, len(addedModules))
+	uniqueAddedModules := make([]*addedModule, 0, len(addedModules))
+	for _, addedModule := range addedModules {
+		commitID := addedModule.remoteModuleKey.CommitID()
+		if _, ok := seenCommitIDs[commitID]; ok {
+			continue
+		}
+		seenCommitIDs[commitID] = struct{}{}
+		uniqueAddedModules = append(uniqueAddedModules, addedModule)
 	}
 	if len(uniqueAddedModules) == 1 {
 		return uniqueAddedModules[0], nil
